@@ -1,7 +1,7 @@
 """
-Correspondence probes for the bookkeeping models (Lean: PGModel/Cache.lean, Inference.lean, Validate.lean, Api.lean):
+Correspondence probes for the bookkeeping models (Lean: PGModel/Cache.lean, Inference.lean, Validate.lean, Api.lean, Memo.lean):
 random operation histories / requests are replayed on the REAL objects and on the model through the driver commands
-`cache`, `infer`, `validate`, `api`; answers are diffed. Used by props/c17.py, c19.py, c20.py (ctx.corr_break on mismatch).
+`cache`, `infer`, `validate`, `api`, `memo`; answers are diffed. Used by props/c17.py, c19.py, c20.py (ctx.corr_break on mismatch).
 """
 import os, random, math
 from fractions import Fraction
@@ -628,7 +628,255 @@ def config_glue(ctx, rng, variant=None):
     return info
 
 
+# ------------------------------------------------------------------------------------------ distribution-level memoisation (C17 / C15 f)
+def _memo_pool(R, two_demes, target):
+    """rewards as (model syntax, constructor) pairs; the pool is built around the pairs that COLLIDE under the seeded key
+    defects: Sum([A,A,B]) / Sum([A,B]) / Sum([A,B,B]) / Sum([B,A]) (children as a set), Product([Unit,TH]) /
+    Product([Unit,TBL]) (stateless rewards hashing alike inside composites), the same rewards in another order, nested."""
+    atoms = [('th', R.TreeHeightReward), ('tbl', R.TotalBranchLengthReward), ('u', R.UnitReward), ('d0', lambda: R.DemeReward('pop_0'))]
+    if two_demes:
+        atoms.append(('d1', lambda: R.DemeReward('pop_1')))
+    if target == 'th':
+        # TotalTreeHeightReward is built from LocusReward: lineage-counting state space only
+        atoms += [('tth', R.TotalTreeHeightReward), ('l2', lambda: R.LineageReward(2)), ('l3', lambda: R.LineageReward(3))]
+    else:
+        atoms += [('s1', lambda: R.UnfoldedSFSReward(1)), ('s2', lambda: R.UnfoldedSFSReward(2)), ('f1', lambda: R.FoldedSFSReward(1)),
+                  ('f2', lambda: R.FoldedSFSReward(2))]
+    return atoms
+
+
+def _memo_reward(rng, atoms, depth=0, family=None):
+    """(syntax, thunk, family) of a random reward; composites come from collision-prone families: a family is
+    (kind, a, b) and its members are the child lists [a,b] [b,a] [a,a,b] [a,b,b] [a,b,a] [a] [a,a] [Unit,a] [Unit,b] [a,Unit]"""
+    if family is None and (depth >= 2 or rng.random() < (0.45 if depth == 0 else 0.7)):
+        return rng.choice(atoms[:3] if rng.random() < 0.6 else atoms) + (None,)
+    if family is None:
+        kind = rng.choice(['S', 'S', 'P'])
+        a, b = rng.sample(atoms[:3] if rng.random() < 0.7 else atoms, 2)
+        if rng.random() < 0.25:
+            b = _memo_reward(rng, atoms, depth + 1)[:2]
+        family = (kind, a, b)
+    kind, a, b = family
+    u = atoms[2]
+    shape = rng.choice([[a, b], [b, a], [a, a, b], [a, b, b], [a, b, a], [a], [a, a], [u, a], [u, b], [a, u]])
+    name = 'SumReward' if kind == 'S' else 'ProductReward'
+    syn = f"{kind}({','.join(x[0] for x in shape)})"
+    def mk(shape=shape, name=name):
+        import phasegen.rewards as R
+        return getattr(R, name)([x[1]() for x in shape])
+    return (syn, mk, family)
+
+
+def _memo_sibling(rng, atoms, r):
+    """a reward that may collide with `r` under a defective key scheme: another member of its family / another stateless atom"""
+    if r[2] is not None:
+        return _memo_reward(rng, atoms, family=r[2])
+    return rng.choice(atoms[:3]) + (None,) if rng.random() < 0.5 else r
+
+
+def _memo_caches(D):
+    """the `functools.cache` objects: `@_make_hashable @cache def f` -> `Class.f.__wrapped__` is the lru wrapper (`_make_hashable`
+    uses functools.wraps); `_get_P` is decorated with `@cache` only"""
+    return dict(ptd=D.PhaseTypeDistribution.moment.__wrapped__, acc=D.PhaseTypeDistribution._accumulate.__wrapped__,
+                sfs=D.SFSDistribution.moment.__wrapped__, coal=D.Coalescent.moment.__wrapped__, p=D.SFSDistribution._get_P)
+
+
+def _memo_arr(x):
+    return np.atleast_1d(np.asarray(x.data if hasattr(x, 'data') and not isinstance(x, np.ndarray) else x, dtype=float)).copy()
+
+
+def _memo_same(a, b):
+    if a is None or b is None or a.shape != b.shape:
+        return False
+    return all((math.isnan(u) and math.isnan(v)) or C.close(u, v, 1e-12, 1e-14) for u, v in zip(a.ravel(), b.ravel()))
+
+
+def memo_history(ctx, rng, n_queries=8):
+    """A random history of queries on ONE real distribution object (`coal.tree_height`, `coal.sfs`, or the `Coalescent`
+    itself; n = 4) against the model `PGModel/Memo.lean` (driver command `memo`, variant `current` or the one named by
+    VERIF_MEMO_VARIANT).  Nothing is patched: hits and misses are read off `cache_info()` of the `functools.cache` wrappers
+    (`PhaseTypeDistribution.moment`, `._accumulate`, `SFSDistribution.moment`, `Coalescent.moment`, `SFSDistribution._get_P`)
+    before and after every query, property slots off the instance `__dict__`.  The caches are cleared at the start of the
+    history and again at its end (they are process-global).  Compared:
+      (a) per query the hit/miss flag and the hit / miss counts of the object's `moment` memo (and of `_accumulate` for
+          `tree_height`, where the model mirrors the call structure of `accumulate`) with the model's;
+      (b) every answer with the answer of a FRESH Coalescent asked only that query (1e-12) - for a variant other than
+          `current` with the value the model predicts (the fresh value of the query it names).
+    Calls are made with keyword arguments in signature order and omitted arguments are not passed (the key of
+    `functools.cache` is the call as written); histories contain SIBLINGS of earlier calls (all arguments equal but the
+    rewards, which are replaced by members of the same collision family)."""
+    pg = C.import_phasegen()
+    import phasegen.distributions as D
+    import phasegen.rewards as R
+    variant = os.environ.get('VERIF_MEMO_VARIANT', 'current')
+    target = rng.choice(['th', 'th', 'sfs', 'sfs', 'coal'])
+    two = rng.random() < 0.35
+    def mk_coal():
+        if two:
+            return pg.Coalescent(n={'pop_0': 2, 'pop_1': 2}, demography=pg.Demography(
+                pop_sizes={'pop_0': 1.0, 'pop_1': 2.0}, migration_rates={('pop_0', 'pop_1'): 0.5, ('pop_1', 'pop_0'): 0.25}),
+                parallelize=False, pbar=False)
+        return pg.Coalescent(n=4, parallelize=False, pbar=False)
+    def obj_of(coal):
+        return dict(th=lambda: coal.tree_height, sfs=lambda: coal.sfs, coal=lambda: coal)[target]()
+    atoms = _memo_pool(R, two, target)
+    coal = mk_coal()
+    obj = obj_of(coal)
+    tmax = float(coal.tree_height.t_max)            # computed BEFORE the caches are cleared and counted
+    # ---- the history
+    qs = []
+    recent = []
+    def tuple_of(k):
+        out = []
+        for _ in range(k):
+            if recent and rng.random() < 0.3:
+                out.append(rng.choice(recent))
+            else:
+                out.append(_memo_reward(rng, atoms))
+                recent.append(out[-1])
+        return out
+    for _ in range(n_queries):
+        kinds = ['m'] * 6 + {'th': ['a', 'a', 'mean', 'var'], 'sfs': ['mean', 'var', 'cov', 'corr', 'corr', 'cov', 'p', 'p'], 'coal': []}[target]
+        kind = rng.choice(kinds)
+        if qs and rng.random() < 0.2:
+            qs.append(rng.choice(qs)); continue                       # ask an earlier query again
+        earlier = [q for q in qs if q[0] == kind and q[0] in ('m', 'a') and q[2 if kind == 'm' else 3]]
+        if earlier and rng.random() < 0.45:
+            # a SIBLING of an earlier call: all other arguments equal, the rewards replaced by possible key collisions
+            q = list(rng.choice(earlier))
+            j = 2 if kind == 'm' else 3
+            q[j] = [_memo_sibling(rng, atoms, r) if rng.random() < 0.7 else r for r in q[j]]
+            if rng.random() < 0.2:
+                q[j] = q[j][::-1]
+            qs.append(tuple(q)); continue
+        if kind == 'm':
+            k = rng.choice([1, 1, 1, 2, 2, 0] if target != 'th' else [1, 1, 1, 2, 2, 2, 3, 0])
+            rew = None if rng.random() < 0.15 else tuple_of(k)
+            start = rng.choice([None, None, None, 0.0, 0.5])
+            end = rng.choice([None, None, 1.0, 2.0, tmax])
+            center = rng.choice([None, True, False])
+            permute = rng.choice([None, None, True, False])
+            qs.append(('m', k, rew, start, end, center, permute))
+        elif kind == 'a':
+            k = rng.choice([1, 2, 2, 3])
+            qs.append(('a', k, rng.choice([[1.0], [2.0], [0.5, 1.0], [tmax]]), tuple_of(k), rng.random() < 0.5))
+        elif kind == 'p':
+            qs.append(('p', rng.choice([0.5, 1.0, 2.0])))
+        else:
+            qs.append((kind,))
+    def tok(q):
+        o = lambda x, f: '-' if x is None else f(x)
+        if q[0] == 'm':
+            rew = '-' if q[2] is None else (';'.join(r[0] for r in q[2]) if q[2] else '()')
+            return f"m:{q[1]}:{rew}:{o(q[3], C.rs)}:{o(q[4], C.rs)}:{o(q[5], lambda b: int(b))}:{o(q[6], lambda b: int(b))}"
+        if q[0] == 'a':
+            return f"a:{q[1]}:{C.rlist(q[2])}:{';'.join(r[0] for r in q[3])}:{int(q[4])}"
+        if q[0] == 'p':
+            return f"p:{C.rs(q[1])}"
+        return q[0]
+    def ask(o, q):
+        if q[0] == 'm':
+            kw = dict(k=q[1])                                            # keyword arguments in signature order, omitted = not passed
+            if q[2] is not None: kw['rewards'] = tuple(r[1]() for r in q[2])
+            if q[3] is not None: kw['start_time'] = q[3]
+            if q[4] is not None: kw['end_time'] = q[4]
+            if q[5] is not None: kw['center'] = q[5]
+            if q[6] is not None: kw['permute'] = q[6]
+            return o.moment(**kw)
+        if q[0] == 'a':
+            return o.accumulate(q[1], list(q[2]), tuple(r[1]() for r in q[3]), center=False, permute=q[4])
+        if q[0] == 'p':
+            return o.get_mutation_config([1, 0, 0], q[1])
+        return getattr(o, q[0])
+    caches = _memo_caches(D)
+    top = caches[dict(th='ptd', sfs='sfs', coal='coal')[target]]
+    for c in caches.values():
+        c.cache_clear()
+    real, flags = [], []
+    try:
+        with C.LogCapture():
+            for q in qs:
+                t0, a0, p0 = top.cache_info(), caches['acc'].cache_info(), caches['p'].cache_info()
+                slot = (q[0] in obj.__dict__) if len(q) == 1 else None
+                try:
+                    real.append(_memo_arr(ask(obj, q)))
+                except Exception as e:
+                    real.append(None)
+                    ctx.count('memo-query-raised:' + type(e).__name__)
+                t1, a1, p1 = top.cache_info(), caches['acc'].cache_info(), caches['p'].cache_info()
+                dmh, dmm, dah, dam = t1.hits - t0.hits, t1.misses - t0.misses, a1.hits - a0.hits, a1.misses - a0.misses
+                hit = {'m': dmm == 0, 'a': dam == 0, 'p': p1.hits > p0.hits}.get(q[0], slot)
+                flags.append(('h' if hit else 'm', dmh, dmm, dah, dam))
+            # ---- the direct oracle: a fresh Coalescent per distinct query, asked only that query
+            fresh = {}
+            for q in qs:
+                t = tok(q)
+                if t not in fresh:
+                    try:
+                        fresh[t] = _memo_arr(ask(obj_of(mk_coal()), q))
+                    except Exception:
+                        fresh[t] = None
+    finally:
+        for c in caches.values():
+            c.cache_clear()
+    toks = [tok(q) for q in qs]
+    # `tree_height`: the model mirrors the `_accumulate` calls and needs the default end time; a `Coalescent` builds a new
+    # lower distribution per call (`_get_dist`): its `_accumulate` entries are never seen again
+    opts = f"tmax={C.rs(C.frac(tmax))} " if target == 'th' else ('lower=fresh ' if target == 'coal' else '')
+    line = f"memo {variant} {opts}{' '.join(toks)}"
+    ans = C.driver().ask(line)
+    _, m_flags, m_verdicts = [part.strip().split() for part in ans.split('|')]
+    ctx.count('memo-histories'); ctx.count(f'memo-target:{target}'); ctx.count('memo-queries', len(qs))
+    bad = []
+    for i, (q, f, mf, mv) in enumerate(zip(qs, flags, m_flags, m_verdicts)):
+        if real[i] is None:
+            bad.append((i, toks[i], 'query raised on the real object')); continue
+        mh, mdmh, mdmm, mdah, mdam = mf.split('/')
+        ctx.count(f'memo-flag:{q[0]}:{f[0]}')
+        # (a) hit / miss pattern: flag and moment-memo counts always; `_accumulate` counts where the model mirrors the call structure
+        mine = (f[0], f[1], f[2]) + ((f[3], f[4]) if target == 'th' else ())
+        theirs = (mh, int(mdmh), int(mdmm)) + ((int(mdah), int(mdam)) if target == 'th' else ())
+        if q[0] == 'a' and target != 'th':
+            mine = theirs = ()
+        if mine != theirs:
+            bad.append((i, toks[i], 'hit/miss', dict(real=mine, model=theirs)))
+        # (b) the answer
+        if mv == '=':
+            want, what = fresh[toks[i]], 'fresh object'
+        elif mv.startswith('q'):
+            want, what = fresh[toks[int(mv[1:])]], f'model: fresh value of query {mv[1:]}'
+        elif mv.startswith('a'):
+            want, what = real[int(mv[1:])], f'model: the answer given to query {mv[1:]}'
+        else:
+            want, what = None, 'model: a wrong value'
+        if want is None and mv == 'x':
+            # the model predicts a value that is no fresh value and no earlier answer (e.g. a collision INSIDE one call, which a
+            # fresh object of the tree under test suffers as well): nothing to compare with
+            ctx.count('memo-model-predicts-unnamed-wrong-value')
+        elif (not _memo_same(real[i], want) and mv == '=' and target == 'sfs' and q[0] != 'p'
+              and ('frozenset' in variant or 'baseclass' in variant)):
+            # demonstration runs on a tree with a seeded reward-key defect only: `SFSDistribution.moment` (hence `mean`, `var`)
+            # and `cov` call `PhaseTypeDistribution.moment` once per bin (pair of bins) on `CombinedReward([r, sfs_i])` keys - a
+            # memo layer below the two the model has; collisions THERE are outside the model (never skipped for variant `current`)
+            ctx.count('memo-sfs-lower-layer-collision-not-modelled')
+        elif not _memo_same(real[i], want):
+            bad.append((i, toks[i], 'answer', dict(expected=what, want=None if want is None else want.tolist(), real=real[i].tolist())))
+        if mv != '=':
+            ctx.count('memo-model-predicts-wrong-answer')
+    if bad:
+        ctx.corr_break('memo-history', request=line, model=ans, target=target, two_demes=two, mismatches=bad[:6])
+    return line
+
+
 # ------------------------------------------------------------------------------------------ pmap entry points
+def one_memo(ctx, i):
+    rng = random.Random(f'{ctx.seed}-corr-memo-{i}')
+    line = None
+    for _ in range(6):
+        line = memo_history(ctx, rng, n_queries=rng.randint(3, 9))
+    ctx.case(dict(kind='memo-history', batch=i, last=line), f'memo-{i}')
+
+
 def one_cache(ctx, i):
     rng = random.Random(f'{ctx.seed}-corr-cache-{i}')
     for _ in range(10):
